@@ -165,3 +165,100 @@ func verifC15(secondBatch bool) {
 
 func VerifH_C15_ordered() { verifC15(false) }
 func VerifH_C15_two()     { verifC15(true) }
+
+// VerifH_C15_stop: Stop() while an accepted batch is still in flight.  One event (symbolically: with an unknown
+// parent, so that it waits in the ordering buffer; symbolic Lamport time, check result, ordered flag).  In the
+// engine the inserter worker has not run yet when Stop() is called and runs when Stop() waits for the workers
+// (it symbolically sees quit or the task first); natively the inserter is held inside the HighestLamport
+// callback until Stop() has been called.  If the batch was handled completely, its event must have been
+// released exactly once by the time Stop() returns and the semaphore must be back to zero.
+func VerifH_C15_stop() {
+	capacity := dag.Metric{Num: 100, Size: 1 << 30}
+	warned := 0
+	sem := datasemaphore.New(capacity, func(dag.Metric, dag.Metric, dag.Metric) { warned++ })
+	highest := idx.Lamport(sym.U32("highest"))
+	limit := dag.Metric{Num: 2, Size: 1 << 20}
+	released, processed, handled := 0, 0, 0
+	var checked func(error)
+	gate := make(chan struct{})
+	inTask := make(chan struct{}, 1)
+	p := New(sem, Config{EventsBufferLimit: limit, EventsSemaphoreTimeout: time.Second, MaxTasks: 8}, Callback{
+		Event: EventCallback{
+			Process:         func(e dag.Event) error { processed++; return nil },
+			Released:        func(e dag.Event, peer string, err error) { released++ },
+			Get:             func(h hash.Event) dag.Event { return nil },
+			Exists:          func(h hash.Event) bool { return false },
+			CheckParents:    func(e dag.Event, parents dag.Events) error { return nil },
+			CheckParentless: func(e dag.Event, c func(error)) { checked = c },
+		},
+		HighestLamport: func() idx.Lamport {
+			handled++
+			if !sym.Symbolic() {
+				inTask <- struct{}{}
+				<-gate // held until Stop() is under way
+			}
+			return highest
+		},
+	})
+	e := &dag.MutableBaseEvent{}
+	e.SetEpoch(1)
+	e.SetSeq(1)
+	e.SetLamport(idx.Lamport(sym.U32("lam0")))
+	if sym.Bool("unknownParent") {
+		e.SetParents(hash.Events{hash.Event{9, 9, 9}})
+	}
+	e.SetID([24]byte{1})
+	var checkErr error
+	if sym.Bool("cerr0") {
+		checkErr = errors.New("check failed")
+	}
+	sym.SetNow(1_000_000_000_000)
+	if !sym.Symbolic() {
+		p.Start()
+	}
+	done := 0
+	sym.Assert(p.Enqueue("peer", dag.Events{e}, sym.Bool("ordered"), nil, func() { done++ }) == nil, "batch accepted")
+	if sym.Symbolic() {
+		p.checker.Start(1)
+		sym.RunGo(sym.NumGo() - 1)
+	} else {
+		time.Sleep(60 * time.Millisecond)
+	}
+	sym.Assert(checked != nil, "every event of an accepted batch is checked")
+	checked(checkErr)
+	if sym.Symbolic() {
+		sym.YieldOnWaitGroup(true)
+		ran := false
+		sym.OnYield(func(tag string) bool {
+			if tag == "wg" && !ran {
+				ran = true
+				p.orderedInserter.Start(1) // the inserter worker gets to run only now
+				sym.RunGo(sym.NumGo() - 1)
+			}
+			return false
+		})
+		p.Stop()
+	} else {
+		if checkErr == nil {
+			<-inTask // the inserter is inside process()
+		} else {
+			time.Sleep(60 * time.Millisecond)
+		}
+		stopped := make(chan struct{})
+		go func() { p.Stop(); close(stopped) }()
+		time.Sleep(100 * time.Millisecond)
+		close(gate)
+		<-stopped
+	}
+	finished := handled == 1 || (checkErr != nil && done == 1 && released == 1)
+	if finished {
+		sym.Assert(released == 1, "every event of a batch that was handled completely is released exactly once by the time the processor is stopped")
+		end := sem.Processing()
+		sym.Assert(end.Num == 0 && end.Size == 0 && warned == 0, "the semaphore returns to zero once all events are released, without over-release")
+		sym.Reach("finished-in-flight")
+	} else {
+		sym.Reach("abandoned")
+	}
+	sym.Assert(processed <= 1 && released <= 1, "no event is processed or released twice")
+	sym.Reach("c15stop")
+}
